@@ -49,6 +49,14 @@ pub unsafe fn libc_exit(code: i32) -> ! {
     if cfg!(miri) {
         std::process::exit(code)
     }
+    // coverage builds (sim/coverage.sh): `_exit` skips the profile runtime's atexit handler
+    #[cfg(verif_coverage)]
+    unsafe {
+        unsafe extern "C" {
+            fn __llvm_profile_write_file() -> i32;
+        }
+        __llvm_profile_write_file();
+    }
     unsafe { _exit(code) }
 }
 
